@@ -781,8 +781,14 @@ class PDFPageInterpreter:
                 raise PDFInterpreterError("No colorspace specified!")
             n = 1
 
-        if n == 1:
-            gray = self.pop(1)[0]
+        values = self.pop(n) if n in (1, 3, 4) else []
+        if n in (1, 3, 4) and len(values) != n:
+            log.warning(
+                f"Cannot set stroke color because {n} components are expected but the operands are {values!r}"
+            )
+
+        elif n == 1:
+            gray = values[0]
             gray_f = safe_float(gray)
             if gray_f is None:
                 log.warning(
@@ -792,7 +798,6 @@ class PDFPageInterpreter:
                 self.graphicstate.scolor = gray_f
 
         elif n == 3:
-            values = self.pop(3)
             rgb = safe_rgb(*values)
             if rgb is None:
                 log.warning(
@@ -802,7 +807,6 @@ class PDFPageInterpreter:
                 self.graphicstate.scolor = rgb
 
         elif n == 4:
-            values = self.pop(4)
             cmyk = safe_cmyk(*values)
 
             if cmyk is None:
@@ -826,8 +830,14 @@ class PDFPageInterpreter:
                 raise PDFInterpreterError("No colorspace specified!")
             n = 1
 
-        if n == 1:
-            gray = self.pop(1)[0]
+        values = self.pop(n) if n in (1, 3, 4) else []
+        if n in (1, 3, 4) and len(values) != n:
+            log.warning(
+                f"Cannot set non-stroke color because {n} components are expected but the operands are {values!r}"
+            )
+
+        elif n == 1:
+            gray = values[0]
             gray_f = safe_float(gray)
             if gray_f is None:
                 log.warning(
@@ -837,7 +847,6 @@ class PDFPageInterpreter:
                 self.graphicstate.ncolor = gray_f
 
         elif n == 3:
-            values = self.pop(3)
             rgb = safe_rgb(*values)
 
             if rgb is None:
@@ -848,7 +857,6 @@ class PDFPageInterpreter:
                 self.graphicstate.ncolor = rgb
 
         elif n == 4:
-            values = self.pop(4)
             cmyk = safe_cmyk(*values)
 
             if cmyk is None:
@@ -1118,6 +1126,9 @@ class PDFPageInterpreter:
         if self.textstate.font is None:
             if settings.STRICT:
                 raise PDFInterpreterError("No font specified!")
+            return
+        if not isinstance(seq, (list, tuple)):
+            log.warning(f"Cannot show text because {seq!r} is not an array")
             return
         assert self.ncs is not None
         self.device.render_string(
